@@ -10,7 +10,7 @@ from concurrent.futures import ThreadPoolExecutor
 import numpy as np
 from oqupy import process_tensor as ptm
 
-from harness.common import run_cases, ints, REPO
+from harness.common import run_cases, ints, REPO, coq_list
 from harness.impl import rand_intpt
 from harness import c16
 
@@ -59,7 +59,7 @@ if spec["writer"] == "export":
     pt.export(spec["file"])
 elif spec["writer"] == "handfill":
     # a write-mode file filled by hand; the object is given its name / description while the file is being written
-    pt = ptm.FileProcessTensor("write", spec["file"], 2, dt=0.1, name="first")
+    pt = ptm.FileProcessTensor("write", spec["file"], 2, dt=0.1, name="first", description="initial")
     rng = np.random.default_rng(0)
     bonds = spec["bonds"]
     renamed = [False]
@@ -101,27 +101,72 @@ def run_child(spec):
     return p.returncode, ops, p.stderr[-500:]
 
 
+OBSERVED_NAMES = {}
+NAME_IDS = {"first": 1, "initial": 2, "renamed": 3, "described later": 4}
+
+
+def handfill_codes(j):
+    """the operations a hand-filling writer has completed when it dies in its kill_at-th write operation (0: it completes),
+    coded for Glue.handfill_flat: (0,k) set_mpo k, (1,k) set_cap k, (2,n) name := n, (3,n) description := n, (9,0) close()"""
+    bonds, ra, what, kill = j["bonds"], j["rename_after"], j["rename"], j["kill_at"]
+    codes, st = [], {"count": 1, "renamed": False}
+    if kill == 1:
+        return codes
+
+    def maybe():
+        if not st["renamed"] and st["count"] >= ra:
+            st["renamed"] = True
+            if what in ("name", "both"):
+                codes.append((2, NAME_IDS["renamed"]))
+            if what in ("description", "both"):
+                codes.append((3, NAME_IDS["described later"]))
+    maybe()
+    for kind, num in [(0, len(bonds) - 1), (1, len(bonds))]:
+        for k in range(num):
+            codes.append((kind, k))
+            st["count"] += 1
+            if st["count"] == kill:
+                return codes
+            maybe()
+    codes.append((9, 0))
+    return codes
+
+
 def observe(fn):
-    """Open the survivor the way a user would; classify."""
+    """Open the survivor the way a user would -- as a file-backed and as an in-memory ('simple') process tensor; classify.
+    'clean' if EITHER way of opening it gives an object without the warning (OPENED_CLEAN_AS tells which), else 'warned' if
+    either warns, else 'failed'."""
     if not os.path.exists(fn):
         return "missing", None
-    try:
-        with warnings.catch_warnings(record=True) as w:
-            warnings.simplefilter("always")
-            pt = ptm.import_process_tensor(fn, "file")
-            warned = any("corrupt" in str(x.message) for x in w)
-            try:
-                n = len(pt)
-                ncaps = 0
-                while pt.get_cap_tensor(ncaps) is not None:
-                    ncaps += 1
-                content = [n, ncaps]
-            except Exception:
-                content = None
-            pt.close()
-        return ("warned" if warned else "clean"), content
-    except Exception as ex:
-        return "failed", repr(ex)[:100]
+    outcomes, content = {}, None
+    for kind in ("file", "simple"):
+        try:
+            with warnings.catch_warnings(record=True) as w:
+                warnings.simplefilter("always")
+                pt = ptm.import_process_tensor(fn, kind)
+                warned = any("corrupt" in str(x.message) for x in w)
+                try:
+                    n = len(pt)
+                    ncaps = 0
+                    while pt.get_cap_tensor(ncaps) is not None:
+                        ncaps += 1
+                    c_ = [n, ncaps]
+                except Exception:
+                    c_ = None
+                if kind == "file":
+                    OBSERVED_NAMES[fn] = (pt.name, pt.description)
+                    pt.close()
+            outcomes[kind] = ("warned" if warned else "clean", c_)
+        except Exception as ex:
+            outcomes[kind] = ("failed", repr(ex)[:100])
+    for want in ("clean", "warned", "failed"):
+        for kind in ("file", "simple"):
+            if outcomes[kind][0] == want:
+                OPENED_AS[fn] = {k: v[0] for k, v in outcomes.items()}
+                return want, outcomes[kind][1]
+
+
+OPENED_AS = {}
 
 
 def decision_table(chk, tmp):
@@ -433,10 +478,16 @@ def run(chk):
             outcome, content = observe(j["file"])
             completed = (j["kill_at"] == 0 and not j.get("kill_in_close"))
             chk.search_cases += 1
-            rec = dict(j, outcome=outcome, content=content, rc=rc)
+            rec = dict(j, outcome=outcome, content=content, rc=rc, opened_as=OPENED_AS.get(j["file"]))
             rec.pop("file")
             chk.count(f"{j['writer']}:{outcome}")
             chk.case(rec, (j["writer"], j["kill_at"], j["flush"], str(j.get("bonds")), bool(j.get("kill_in_close")), j.get("death", "kill"), j.get("rename_after"), j.get("rename")))
+            # model (Glue.handfill_flat): what a flushed prefix of the hand-filling writer leaves -- flag, attributes, slots
+            if j["writer"] == "handfill" and (j["flush"] or completed) and outcome in ("warned", "clean") and content is not None:
+                nm_, ds_ = OBSERVED_NAMES.get(j["file"], (None, None))
+                exprs.append(f"handfill_flat {NAME_IDS['first']} {NAME_IDS['initial']} " + coq_list([f"({a}, {b})%Z" for a, b in handfill_codes(j)]))
+                expected.append([1 if outcome == "warned" else 0, NAME_IDS.get(nm_, -1), NAME_IDS.get(ds_, -1)] + content)
+                meta.append({"kind": "handfill", "job": rec})
             if completed:
                 if rc != 0:
                     chk.disagree("crash harness", f"uninterrupted writer failed: {err}")
@@ -474,6 +525,10 @@ def run(chk):
             ok = got is not None and len(got) == len(tab) and all(t == g or (i % 2 == 1 and t == -1) for i, (t, g) in enumerate(zip(tab, got)))
             if not ok:
                 chk.disagree("api decision table", {"meta": m, "impl": tab, "model": got})
+            continue
+        if m.get("kind") == "handfill":
+            if got != exp:
+                chk.disagree("hand-filled file prefix", {"job": m["job"], "impl [flag, name, description, mpos, caps]": exp, "model": got})
             continue
         if got != exp:
             chk.disagree("decision table", {"impl": exp, "model": got})
